@@ -96,7 +96,9 @@ def run(ctx):
                 "random strings over the 30-letter IUPAC x case alphabet of length 1-60 (also shorter than the "
                 "structure), an instance of the structure, and single-letter corruptions of it (all 30 letters at "
                 "sampled positions); assemblies mixing valid, invalid and corrupted records; non-trivial = a record "
-                "that is accepted, or rejected after matching a prefix of the structure (a corrupted instance)")
+                "that is accepted, or rejected after matching a prefix of the structure (a corrupted instance); besides, for "
+                "every Bio.Restriction enzyme OUTSIDE the family (implementation only, no theorem): structure() returns a "
+                "text, and where it compiles is_valid() answers and a rejected record's queries raise InvalidSequence")
     rng = ctx.rng
     enzymes = ctx.tables["enzymes"]
     classes = []
